@@ -3,6 +3,7 @@
 import json
 import os
 import random
+import re
 import subprocess
 import sys
 
@@ -103,7 +104,30 @@ def make_schema(key, hostile=False):
         S.apply_schema_directives(view, random.Random("applied:" + key))
         ir.directives["tagA"], ir.directives["tagB"] = view.directives["tagA"], view.directives["tagB"]
         schema = py_gql.build_schema(S.to_sdl(view)[0])
+        ir.applied_counts = applied_counts(view)
     return ir, schema, mode
+
+
+def applied_counts(view):
+    """How often each of the two type-system directives is applied in the SDL the schema was built from."""
+    out = {"tagA": 0, "tagB": 0}
+
+    def add(x):
+        text = getattr(x, "applied", None) or ""
+        for tag in out:
+            out[tag] += len(re.findall(r"@%s\b" % tag, text))
+
+    for t in view.types.values():
+        add(t)
+        for f in t.fields:
+            add(f)
+            for a in f.args:
+                add(a)
+        for f in t.input_fields:
+            add(f)
+        for v in t.values:
+            add(v)
+    return out
 
 
 def fresh_process_output(key, hostile, options):
@@ -204,6 +228,19 @@ def run(ctx):
                 ctx.violation("printed-sdl-rejected:%s:%s" % (type(e).__name__, kind), dict(witness, printed=text[:3000]), repr(e)[:200])
                 continue
             ctx.count("outputs_parsed")
+            # 1b. applied type-system directives: every application of a selected directive is printed, no other
+            applied = getattr(ir, "applied_counts", None)
+            if applied is not None:
+                sel = options["include_custom_schema_directives"]
+                for tag, n_applied in sorted(applied.items()):
+                    want = n_applied if (sel is True or (isinstance(sel, list) and tag in sel)) else 0
+                    got_n = len(re.findall(r"@%s\b" % tag, text)) - len(re.findall(r"directive @%s\b" % tag, text))
+                    ctx.count("applied_directive_counts_compared")
+                    if got_n != want:
+                        ctx.violation("applied-directives:printed-%s-than-applied" % ("fewer" if got_n < want else "more"),
+                                      dict(witness, printed=text[:3000]),
+                                      "@%s applied %d times in the source SDL, selected=%r, printed %d times" % (tag, n_applied, sel, got_n))
+                        break
             # 2. round trip
             if not options["include_introspection"]:
                 ctx.mark_nontrivial([k, okey, "rebuilt"])
@@ -223,8 +260,19 @@ def run(ctx):
                                   dict(witness, printed=text[:3000]), repr(e)[:300])
                     continue
                 got = canon.canon_schema(rebuilt)
-                d = canon.diff(got, expected_canon(ir, options))
+                want = expected_canon(ir, options)
+                d = canon.diff(got, want)
                 if d:
+                    # known finding: number-like strings of custom scalars are printed as numbers; judge the rest
+                    # of the schema with those strings respelled on both sides
+                    nl = canon.numberlike_scalar_strings(ir)
+                    if nl and canon.diff(canon.respell(got, nl), canon.respell(want, nl)) is None:
+                        ctx.count("numberlike_custom_scalar_defaults_respelled")
+                        ctx.violation("roundtrip:number-like-string-default-of-custom-scalar-respelled",
+                                      dict(witness, printed=text[:3000]), "at %s rebuilt=%s original=%s" % d)
+                        continue
+                    if nl:
+                        d = canon.diff(canon.respell(got, nl), canon.respell(want, nl))
                     ctx.violation("roundtrip:%s%s" % (canon.diff_key(d), ":hostile-description" if hostile and "description" in d[0] else ""),
                                   dict(witness, printed=text[:3000]), "at %s rebuilt=%s original=%s" % d)
                     continue
